@@ -50,6 +50,12 @@ func toyHash(data ...[]byte) []byte {
 	return out
 }
 
+// memorydb loads <dir>/database when opened and writes it on Close: open it on a directory
+// that does not exist and never Close it, so every store starts empty and stays in memory.
+func vtNewStore() db.DB {
+	return db.NewDB(db.MemoryImpl, "/nonexistent-verif-trie-store")
+}
+
 func pickHash(name string) func(data ...[]byte) []byte {
 	if name == "toy" {
 		return toyHash
@@ -199,8 +205,7 @@ func vtRunCase(c *vtCase) (o vtObs) {
 		}
 	}()
 	hash := pickHash(c.Hash)
-	store := db.NewDB(db.MemoryImpl, "")
-	defer store.Close()
+	store := vtNewStore()
 	tr := NewTrie(nil, hash, store)
 	q := unhxs(c.Q)
 	cur := map[string][]byte{}
@@ -250,7 +255,7 @@ func vtRunCase(c *vtCase) (o vtObs) {
 				fk[i] = []byte(k)
 				fv[i] = append([]byte{}, cur[k]...)
 			}
-			fs := db.NewDB(db.MemoryImpl, "")
+			fs := vtNewStore()
 			ft := NewTrie(nil, hash, fs)
 			var fr []byte
 			if len(fk) > 0 {
@@ -261,7 +266,6 @@ func vtRunCase(c *vtCase) (o vtObs) {
 				}
 			}
 			o.Fresh = append(o.Fresh, hx(fr))
-			fs.Close()
 		}
 		if b.Commit {
 			if err := tr.Commit(); err != nil {
